@@ -20,13 +20,30 @@ WHATS = {"C14": [("layout", 2500, None), ("memo", 3000, None), ("memo2", 3000, N
          "C15": [("canon", None, None), ("compat", 3000, None), ("link", 5000, 60000)]}
 
 
+def cast_variants(cases, rng):
+    """The same cases with grids obtained through to_rectilinear() / to_uniform() casts."""
+    out = []
+    for c in cases:
+        keys = [k for k in ("L", "src", "dst") if isinstance(c.get(k), dict) and c[k]["kind"] in ("uniform", "esri")]
+        if not keys or c.get("what") in ("memo", "memo2") or rng.random() > 0.25:
+            continue
+        v = dict(c)
+        for k in keys:
+            if rng.random() < 0.7:
+                v[k] = dict(c[k], cast="uni" if (c[k]["kind"] == "esri" and rng.random() < 0.3) else "rect")
+        if v != c:
+            out.append(v)
+    return out
+
+
 def check(pid, tier):
     ev = Evidence(pid, tier)
     out_lines, violations, machinery = [], [], []
     for what, qcap, tcap in WHATS[pid]:
         traces, _ = run_fn(pid, ev, violations, machinery, "GridEmit", "Grid_Trace", RUNNER, clause_property,
                            "grid-case", emit_env={"WHAT": what}, cap=qcap if tier == "quick" else tcap,
-                           nontrivial=lambda t: len((t["case"].get("L") or t["case"].get("src"))["dims"]) >= 2)
+                           nontrivial=lambda t: len((t["case"].get("L") or t["case"].get("src"))["dims"]) >= 2,
+                           derive=cast_variants)
         if what == "link":
             n_ok = sum(1 for t in traces if t["obs"].get("res") == "ok")
             if n_ok == 0:
